@@ -353,6 +353,11 @@ func c10InProc(sh *explore.Shard, idx *int64) {
 					res := inproc.Scan(modelgit.NewEnv(r, &modelgit.Plan{Faults: []modelgit.Fault{f}}), inproc.SimpleGrouper{Walk: sc.Walks}, sc.Explicit, sizes.NameStyleFull, nil)
 					sh.C.Evals++
 					sh.C.Add("inproc_fault_scans", 1)
+					if res.Hang {
+						sh.C.Violate(explore.Violation{Property: "C10", Class: "hang", Msg: fmt.Sprintf("in-process: %s#%d dies (%d) after %d of %d bytes: %v [%s]", inv.Kind, inv.Nth, exit, k, inv.OutLen, res.Err, desc),
+							Case: caseJSON(sh.Index(), map[string]any{"desc": desc, "fault": f}), Detail: r.Describe()})
+						return false
+					}
 					if res.Panic != nil || res.Err == nil {
 						sh.C.Violate(explore.Violation{Property: "C10", Class: "inproc-fault", Msg: fmt.Sprintf("in-process: %s#%d dies (%d) after %d of %d bytes: panic=%v, error returned=%v [%s]", inv.Kind, inv.Nth, exit, k, inv.OutLen, res.Panic, res.Err != nil, desc),
 							Case: caseJSON(sh.Index(), map[string]any{"desc": desc, "fault": f}), Detail: r.Describe()})
